@@ -90,6 +90,9 @@ func checkC18(c *Ctx) {
 	c.c18CSS()
 	c.c18Text()
 	c.c18UI()
+	// "sanitising never fails or panics": the index class of panics in the sanitiser's own code
+	// (a panic there reaches the message handler, and net/http drops the connection)
+	c.parserIndex("C18/PANIC/index", "pkg/webui/sanitize", nil, "sanitiser", 0)
 }
 
 func (c *Ctx) c18Policy() {
